@@ -255,9 +255,10 @@ class GhostFold:
         self.arr = arr
         self.op = op
         # "max0": running maximum started at 0 (numpy semantics: NaN propagates), as in `m = 0; for ..: m = np.max([m, a])`
+        # "min1": running minimum started at 1 (p = min(1, history entries))
         self.ident = Fraction(0) if op in ("+", "max0") else Fraction(1)
         c = ctx()
-        self.name = c.fresh({"+": "PS", "*": "PP", "max0": "PM"}[op])
+        self.name = c.fresh({"+": "PS", "*": "PP", "max0": "PM", "min1": "PN"}[op])
         self.seen = {}
         self.conc_cache = None
         if arr.items is None:
@@ -291,6 +292,8 @@ class GhostFold:
             return mkint(iadd(acc, a)) if self.op == "+" else mkint(imul(acc, a))
         if self.op == "max0":
             r = xmaximum(xr(acc), xr(a))
+        elif self.op == "min1":
+            r = xminimum(xr(acc), xr(a))
         else:
             r = xadd(acc, a) if self.op == "+" else xmul(acc, a)
         r.npk = True
